@@ -812,7 +812,9 @@ fn twin_c06() -> R {
     let mut n = 0u64;
     let methods = [Method::GET, Method::HEAD, Method::POST, Method::CONNECT, Method::OPTIONS];
     let statuses: Vec<u16> = if big() { (100..=999).collect() } else { vec![100, 101, 199, 200, 204, 205, 299, 300, 301, 304, 305, 399, 400, 404, 500, 999] };
-    let cls: [Option<&str>; 5] = [None, Some("0"), Some("7"), Some("18446744073709551615"), Some("7x")];
+    // (2^64 .. 2^64+3 and a zero-padded one: the first values a hand-written digit loop gets wrong)
+    let cls: [Option<&str>; 9] = [None, Some("0"), Some("7"), Some("18446744073709551615"), Some("7x"),
+        Some("18446744073709551616"), Some("18446744073709551619"), Some("00018446744073709551617"), Some("99999999999999999999")];
     // ("deflate" has the length of "chunked": the comparison is entered, not cut short by the length test)
     let tes: [(Option<&str>, bool); 9] = [(None, false), (Some("chunked"), true), (Some("ChUnKeD"), true), (Some("gzip, chunked"), true), (Some("gzip,chunked"), true), (Some("gzip"), false), (Some("chunkedx"), false),
         (Some("deflate"), false), (Some("chunkeD, deflate"), true)];
@@ -1133,8 +1135,9 @@ fn twin_c10_c11_c09() -> R {
         // ("several fields": a first Connection field that is not `close`, followed by one that is)
         for req_close in [None, Some("close"), Some("keep-alive"), Some("keep-alive|close")] {
             for expect in [false, true] {
-                for handshake in 0..5 {
-                    // 0: 100 continue, 1: refused 403 bare, 2: refused with headers, 3: give up waiting, 4: bare 102 (not a 100!)
+                for handshake in 0..6 {
+                    // 0: 100 continue, 1: refused 403 bare, 2: refused with headers, 3: give up waiting, 4: bare 102 (not a 100!),
+                    // 5: refused by an HTTP/1.0 answer with Connection: close and no length (all five close conditions can hold at once)
                     if !expect && handshake != 0 {
                         continue;
                     }
@@ -1156,7 +1159,8 @@ fn twin_c10_c11_c09() -> R {
                                     let mut out = vec![0u8; 2048];
                                     flow.write(&mut out).map_err(|e| format!("{:?}", e))?;
                                     let mut refused = false;
-                                    let refusal = if handshake == 2 { "HTTP/1.1 403 Forbidden\r\nContent-Length: 0\r\n\r\n" } else if handshake == 4 { "HTTP/1.1 102 Processing\r\n\r\n" } else { "HTTP/1.1 403 Forbidden\r\n\r\n" };
+                                    let refusal = if handshake == 2 { "HTTP/1.1 403 Forbidden\r\nContent-Length: 0\r\n\r\n" } else if handshake == 4 { "HTTP/1.1 102 Processing\r\n\r\n" }
+                                        else if handshake == 5 { "HTTP/1.0 403 Forbidden\r\nConnection: close\r\n\r\n" } else { "HTTP/1.1 403 Forbidden\r\n\r\n" };
                                     let mut rr = match flow.proceed() {
                                         Ok(Some(SendRequestResult::Await100(mut a))) => {
                                             if !expect {
@@ -1175,7 +1179,7 @@ fn twin_c10_c11_c09() -> R {
                                                         tagged_fail!("[C11] bare 100 not consumed exactly");
                                                     }
                                                 }
-                                                1 | 2 | 4 => {
+                                                1 | 2 | 4 | 5 => {
                                                     if a.try_read_100(refusal.as_bytes()) != Ok(0) || a.can_keep_await_100() {
                                                         tagged_fail!("[C11] refusal must consume nothing and stop waiting");
                                                     }
@@ -1261,7 +1265,7 @@ fn twin_c10_c11_c09() -> R {
                                     if refused && handshake == 4 {
                                         // a 1xx final answer has no body: the flow ends in cleanup and must close
                                     }
-                                    let close_delim = if refused { handshake == 1 } else { (framing == "chunked" && !chunked_eff) || framing == "close" };
+                                    let close_delim = if refused { handshake == 1 || handshake == 5 } else { (framing == "chunked" && !chunked_eff) || framing == "close" };
                                     let cleanup = match rr.proceed() {
                                         Some(RecvResponseResult::RecvBody(mut rb)) => {
                                             let body: &[u8] = if chunked_eff { b"2\r\nok\r\n0\r\n\r\n" } else { b"ok" };
@@ -1295,6 +1299,21 @@ fn twin_c10_c11_c09() -> R {
                     }
                 }
             }
+        }
+    }
+    // a body sent despite the method is a body like any other: with Expect it waits for 100 (and a late 100 is skipped)
+    for m in ["GET", "DELETE", "OPTIONS"] {
+        n += 1;
+        let req = Request::builder().method(m).uri("http://a.test/x").header("expect", "100-continue").body(()).unwrap();
+        let mut p = Flow::new(req).map_err(|e| format!("{:?}", e))?;
+        p.send_body_despite_method();
+        let mut f = p.proceed();
+        let mut out = vec![0u8; 1024];
+        f.write(&mut out).map_err(|e| format!("{:?}", e))?;
+        match f.proceed() {
+            Ok(Some(SendRequestResult::Await100(_))) => {}
+            Ok(Some(SendRequestResult::SendBody(_))) => { tagged_fail!("[C09,C11] {} + Expect + send_body_despite_method: body sent without awaiting 100", m); }
+            _ => { tagged_fail!("[C09] {} + Expect + send_body_despite_method: unexpected state after the head", m); }
         }
     }
     // readiness agrees with advancing at EVERY point of a sized body, including before the first write and for an empty body
@@ -1378,7 +1397,7 @@ fn twin_c10_c11_c09() -> R {
                     None => return Err("[C09] RecvResponse::proceed None after a response".into()),
                 };
                 if got != want_redirect {
-                    tagged_fail!("[C09] successor after {:?}: redirect={} want {}", head, got, want_redirect);
+                    tagged_fail!("[C09,C15] successor after {:?}: redirect={} want {}", head, got, want_redirect);
                 }
                 // C10: the verdict is the same function of the close conditions in the redirect and in the cleanup state
                 for (must_close, has_reason) in verdicts {
@@ -1740,7 +1759,7 @@ fn twin() {
         (&["C06"], "response-framing-table", twin_c06),
         (&["C07", "C01"], "chunked-response-decoding", twin_c07),
         (&["C08", "C01"], "length-and-close-delimited-bodies", twin_c08),
-        (&["C09", "C10", "C11"], "state-graph-handshake-and-verdict", twin_c10_c11_c09),
+        (&["C09", "C10", "C11", "C15"], "state-graph-handshake-and-verdict", twin_c10_c11_c09),
         (&["C12"], "hostile-server-bytes", twin_c12),
         (&["C12", "C07"], "hostile-chunk-size-lines", twin_c12_grammar),
         (&["C13", "C14", "C15"], "redirects", twin_c13_c14_c15),
